@@ -155,7 +155,8 @@ def main(tier, seed):
         return dict(kind=kind, label=c['label'], acceptor=c['acceptor'], ops=pd.short_ops(c['ops']), result=pd.summary(r))
     bad = set(failing['spec']) | set(failing['rest'])
     for i in sorted(bad):
-        dec.report(rec(i, 'crash-hang-or-not-at-rest'))
+        chk = ('spec', 'c05_spec') if i in set(failing['spec']) else ('rest', 'ends_at_rest')
+        dec.report(pd.with_minimal('C12', rec(i, 'crash-hang-or-not-at-rest'), cases[i], chk))
     lenient_diff = 0
     for i in failing['corr']:
         if i in bad:
